@@ -108,3 +108,14 @@ Theorem C19_read_peer_names :
     forall k n, nth_error ns k = Some n -> index_of n ns = Some k.
 Proof. exact @read_peer_names_ok. Qed.
 Print Assumptions C19_read_peer_names.
+
+(** Which local-trust files the CLI accepts (named mode): exactly those whose records all have 2 or
+    3 fields (the header too), whose data records carry a parsable and JSON-representable value,
+    with at least one data record and a clean end of stream; everything else is an error. *)
+Theorem C19_cli_matrix_accepts_iff :
+  forall (S : ScalarOps) header t (i : @csvin S), NoDup t ->
+    (exists l, load_matrix_csv header false t i = ROk l) <->
+    clean_eof i = true /\ Forall count_ok (recs i) /\ data (recs i) header <> [] /\
+    Forall (fun r => match r with _ :: _ :: tl => exists v, rec_value tl = Some v /\ nonfinite S v = false | _ => False end) (data (recs i) header).
+Proof. exact @load_matrix_csv_ok_iff. Qed.
+Print Assumptions C19_cli_matrix_accepts_iff.
